@@ -20,9 +20,11 @@ import (
 	"time"
 )
 
-const (
-	verifDir = "/verif"
-	repoDir  = "/repo"
+// VERIF_DIR / VERIF_REPO let a background run work from a snapshot (vp run); the registered
+// commands use the defaults.
+var (
+	verifDir = envOr("VERIF_DIR", "/verif")
+	repoDir  = envOr("VERIF_REPO", "/repo")
 )
 
 type propCfg struct {
